@@ -71,6 +71,18 @@ def check(ctx):
              ['real-number theorems; IEEE rounding modelled (K7: excursions <= 2 ulp)', 'd <= 7 so that NumPy\'s reduction is a left fold'])
     drv = common.Driver()
     try:
+        for lb_, ub_ in (([-0.5], [0.5]), ([-0.5, 0.25], [0.5, 2.75]), ([0.1, -3.3, 1e-3], [0.9, 7.7, 2e-3])):
+            v_ = len(lb_)
+            for corner in (0, 1):
+                for d_ in (1, 2, 3):
+                    ai = np.full((v_, d_), corner, dtype=np.int64)
+                    of_ = hc.span(ai.astype(float), lb_, ub_)
+                    oi_ = hc.span(ai, lb_, ub_)
+                    rp_ = dict(how='span', arr=ai.tolist(), lb=lb_, ub=ub_, dtype='int64')
+                    if not np.array_equal(np.asarray(oi_), np.asarray(of_), equal_nan=True):
+                        C.issue('span-depends-on-dtype', 'oracle', rp_, integer=np.asarray(oi_).tolist(), floats=np.asarray(of_).tolist())
+                    judge(C, np, hc.span, ai.astype(float), lb_, ub_, np.asarray(oi_, dtype=float), rp_)
+                    C.case(key=('int-corner', tuple(lb_), corner, d_), nontrivial=True, kind='int-corner')
         reps = 400 if ctx['tier'] == 'quick' else 6000
         lines, exp, meta = [], [], []
         for k in range(reps):
@@ -102,6 +114,11 @@ def check(ctx):
                 C.issue('span-modified-its-arguments', 'oracle', dict(rp, bounds='ndarray'))
             elif not (np.array_equal(o1, out, equal_nan=True) and np.array_equal(o2, out, equal_nan=True)):
                 C.issue('span-not-a-function-of-its-arguments', 'oracle', dict(rp, bounds='ndarray'), first=o1.tolist(), second=o2.tolist(), lists=out.tolist())
+            # the same point written with whole numbers (unit-box corners as an integer-typed array): the same image
+            if np.all((arr == 0) | (arr == 1)):
+                oi = hc.span(arr.astype(np.int64), lb, ub)
+                if not np.array_equal(oi, out, equal_nan=True):
+                    C.issue('span-depends-on-dtype', 'oracle', dict(rp, dtype='int64'), integer=np.asarray(oi).tolist(), floats=out.tolist())
             lines.append(f"n.span {enc_bits(lb)} {enc_bits(ub)} {';'.join(enc_bits(r) for r in arr)}")
             exp.append([fbits(x) for x in out])
             meta.append(rp)
@@ -162,12 +179,14 @@ def check(ctx):
             cfg = dict(kind=kind, space='hyper', n_agents=4, n_vars=2, n_dims=C.rng.randint(1, 3), n_iter=3, box='offset',
                        lb=[-10.0, -3.0], ub=[10.0, 7.0], objective='sphere', rettype='py', hyper={}, adv=0.15, hook='observer',
                        store_best_only=False, seed=C.rng.randrange(1 << 30))
-            r = runpass.analyse_run(cfg, drv, props=['C01'])
-            for i in r['issues']['C01']:
-                if not i.get('known'):
-                    C.issue('hyper-run-' + i['what'], 'oracle', dict(how='runlevel', cfg=cfg, what=i['what']), detail=str(i)[:300])
-                    break
-            C.case(key=('hyper-run', kind), nontrivial=True, kind='hyper-run')
+            for variant in (cfg, dict(cfg, reassign_bounds=True, n_iter=6, n_agents=6, adv=0.3, objective='outside', seed=cfg['seed'] + 1)):
+                # (second variant: the bounds re-declared through the space's setters after construction — same values)
+                r = runpass.analyse_run(variant, drv, props=['C01'])
+                for i in r['issues']['C01']:
+                    if not i.get('known'):
+                        C.issue('hyper-run-' + i['what'], 'oracle', dict(how='runlevel', cfg=variant, what=i['what']), detail=str(i)[:300])
+                        break
+                C.case(key=('hyper-run', kind, bool(variant.get('reassign_bounds'))), nontrivial=True, kind='hyper-run')
     finally:
         drv.close()
     return C.result()
@@ -206,6 +225,10 @@ def replay(prop, payload):
         o2 = hc.span(arr2, lba, uba)
         return (not (np.array_equal(lba, np.array(lb, dtype=float)) and np.array_equal(uba, np.array(ub, dtype=float))
                      and np.array_equal(arr2, arr))) or not np.array_equal(o1, o2, equal_nan=True)
+    if payload.get('dtype') == 'int64':
+        oi = hc.span(np.array(payload['arr'], dtype=np.int64), payload['lb'], payload['ub'])
+        of_ = hc.span(arr, payload['lb'], payload['ub'])
+        return not np.array_equal(np.asarray(oi), np.asarray(of_), equal_nan=True)
     out = hc.span(arr, payload['lb'], payload['ub'])
     judge(C, np, hc.span, arr, payload['lb'], payload['ub'], out, payload)
     return any(not i.get('known') for i in C.issues)
